@@ -2,11 +2,9 @@ package props
 
 import (
 	"fmt"
-	"strings"
 	"testing"
 
 	"github.com/herohde/morlock/pkg/board"
-	"github.com/herohde/morlock/pkg/board/fen"
 	"pgregory.net/rapid"
 	"verifharness/bridge"
 	"verifharness/gen"
@@ -482,92 +480,3 @@ func TestC07_birthday(t *testing.T) {
 }
 
 const birthdaySeed = 20261003
-
-// C07/accepted: "for all positions" includes everything the engine accepts as a position, also
-// FENs no game produces: castling rights without king and rook at home. The rules model does not follow such games;
-// the property needs no model here: along any sequence of the engine's own legal moves and
-// take-backs, the maintained hash equals the hash from scratch of the position the board reports.
-type acceptedHashCase struct {
-	Seed  int64  `json:"zobrist_seed"`
-	FEN   string `json:"fen"`
-	Picks []int  `json:"picks"` // index into the legal moves at each step; -1 = take back
-}
-
-var checkC07Accepted = def("C07/accepted", func(c acceptedHashCase) error {
-	pos, turn, np, fm, err := fen.Decode(c.FEN)
-	if err != nil || pos == nil {
-		stats.Case("C07/accepted", 0, false, "rejected-by-the-decoder")
-		return nil
-	}
-	zt := board.NewZobristTable(c.Seed)
-	b := board.NewBoard(zt, pos, turn, np, fm)
-	judge := func(i int, what string) error {
-		if sc := zt.Hash(b.Position(), b.Turn()); b.Hash() != sc {
-			return fmt.Errorf("step %d (%s) from %q: Board.Hash()=%x, the hash from scratch of the position it reports (%v, %v to move) is %x", i, what, c.FEN, uint64(b.Hash()), b.Position(), b.Turn(), uint64(sc))
-		}
-		return nil
-	}
-	if err := judge(-1, "set-up"); err != nil {
-		return err
-	}
-	depth, pushes := 0, 0
-	for i, k := range c.Picks {
-		if k < 0 {
-			if depth > 0 {
-				b.PopMove()
-				depth--
-				if err := judge(i, "take-back"); err != nil {
-					return err
-				}
-			}
-			continue
-		}
-		legal := b.Position().LegalMoves(b.Turn())
-		if len(legal) == 0 {
-			break
-		}
-		m := legal[k%len(legal)]
-		if !b.PushMove(m) {
-			continue
-		}
-		depth++
-		pushes++
-		if err := judge(i, "move "+bridge.Text(m)); err != nil {
-			return err
-		}
-	}
-	stats.Case("C07/accepted", stats.FP(c.Seed, c.FEN, fmt.Sprint(c.Picks)), pushes > 0, "accepted-odd-position")
-	return nil
-})
-
-func TestC07_accepted(t *testing.T) {
-	runRapid(t, "C07/accepted", 40000, func(t *rapid.T) acceptedHashCase {
-		c := acceptedHashCase{Seed: rapid.SampledFrom(hashSeeds).Draw(t, "seed")}
-		var st oracle.State
-		if rapid.Bool().Draw(t, "synth") {
-			st = gen.Synth(t)
-		} else {
-			_, g := gen.Game(t, 30)
-			st = *g.Cur()
-		}
-		f := strings.Fields(st.FEN())
-		// rights nobody can have. (Odd en-passant targets are NOT drawn: with a target on the wrong side
-		// or without its pawn the engine's own move generator "captures" whatever stands behind the
-		// target, own men included, and nothing - the hash neither - means anything afterwards. That is
-		// input no game produces, not a position in the sense of the property.)
-		f[2] = rapid.SampledFrom([]string{"KQkq", "KQ", "kq", "Kk", "Qq", "K", "q"}).Draw(t, "rights")
-		f[3] = "-"
-		c.FEN = strings.Join(f, " ")
-		for i, n := 0, rapid.IntRange(1, 24).Draw(t, "steps"); i < n; i++ {
-			if rapid.IntRange(0, 4).Draw(t, "pop") == 0 {
-				c.Picks = append(c.Picks, -1)
-			} else {
-				c.Picks = append(c.Picks, rapid.IntRange(0, 200).Draw(t, "pick"))
-			}
-		}
-		return c
-	}, func(c acceptedHashCase) error {
-		stats.Sample("C07/accepted", c)
-		return checkC07Accepted(c)
-	})
-}
